@@ -185,6 +185,14 @@ def r1(repo, chk):
                         inner = v.args[0] if v.args else None
                         ok = isinstance(inner, ast.Subscript) and isinstance(inner.slice, ast.Slice) and inner.slice.upper is None and isinstance(inner.slice.lower, ast.UnaryOp) and isinstance(inner.slice.lower.op, ast.USub)
                         chk.ob("R1", "_write_ack_frame: a shortened queue keeps the most recent ranges of the same queue", ok, f"`{norm(v)}` is not a tail slice", wa.loc(st))
+                        # ...and it is shortened only for lack of room in the datagram: ACK frames are not congestion
+                        # controlled, so the congestion / flight budget must not decide how many ranges are reported
+                        bound = inner.slice.lower.operand if ok else None
+                        btxt = wa.expand(bound, 3) if bound is not None else ""
+                        lg = [a[0] for a in wa.lexical_guards(st, expand=False)]
+                        dep = btxt + " " + " ".join(wa.expand(ast.parse(g, mode="eval").body, 3) if g.isidentifier() else g for g in lg)
+                        okb = "remaining_buffer_space" in btxt and "flight" not in dep and "congestion" not in dep
+                        chk.ob("R1", "_write_ack_frame: the number of ranges reported is limited by the room in the datagram only (not by the congestion budget)", okb, f"bound `{btxt[:120]}` under {lg}: a congestion-limited endpoint would report only its newest range(s); the older ranges are pruned unreported once that ACK is acknowledged", wa.loc(st))
     chk.count("ack_queue_sites", len(sites))
 
 
